@@ -67,6 +67,16 @@ type Case struct {
 	Out   any      `json:"out"`
 	Tags  []string `json:"tags,omitempty"`
 	Desc  string   `json:"desc,omitempty"`
+	// how to generate this case again: suite run, seed, budget, tier and position in the run
+	Gen *GenInfo `json:"gen,omitempty"`
+}
+
+type GenInfo struct {
+	Suite string `json:"suite"`
+	Seed  uint64 `json:"seed"`
+	N     int    `json:"n"`
+	Tier  string `json:"tier"`
+	Index int    `json:"index"`
 }
 
 type ctx struct {
@@ -77,9 +87,20 @@ type ctx struct {
 	count  int
 	tagHit map[string]int
 	corpus string
+	gen    GenInfo
+	only   int // >= 0: emit only the case at this position (regeneration for a replay)
 }
 
 func (c *ctx) emit(cs Case) {
+	if c.only >= 0 && c.count != c.only {
+		c.count++
+		return
+	}
+	if c.gen.Suite != "" {
+		g := c.gen
+		g.Index = c.count
+		cs.Gen = &g
+	}
 	data, err := json.Marshal(cs)
 	if err != nil {
 		panic(err)
@@ -125,11 +146,12 @@ func main() {
 	}
 	w := bufio.NewWriterSize(f, 1<<20)
 	defer w.Flush()
-	c := &ctx{r: &rng{s: *seed*0x9e3779b97f4a7c15 + 12345}, n: *n, tier: *tier, w: w, tagHit: map[string]int{}}
+	c := &ctx{r: &rng{s: *seed*0x9e3779b97f4a7c15 + 12345}, n: *n, tier: *tier, w: w, tagHit: map[string]int{}, only: -1}
 	if *replay != "" {
 		runReplay(c, *replay)
 		return
 	}
+	c.gen = GenInfo{Suite: *suite, Seed: *seed, N: *n, Tier: *tier}
 	fn, ok := suites[*suite]
 	if !ok {
 		fmt.Fprintf(os.Stderr, "unknown suite %q\n", *suite)
@@ -151,13 +173,27 @@ func runReplay(c *ctx, path string) {
 		panic(err)
 	}
 	var rec struct {
-		Suite string `json:"suite"`
-		In    any    `json:"in"`
+		Suite string   `json:"suite"`
+		In    any      `json:"in"`
+		Gen   *GenInfo `json:"gen"`
 	}
 	dec := json.NewDecoder(strings.NewReader(string(data)))
 	dec.UseNumber()
 	if err := dec.Decode(&rec); err != nil {
 		panic(err)
+	}
+	if rec.Gen != nil && rec.Gen.Suite != "" {
+		// run the generating suite again, against the code as it is now, and keep that one case
+		fn, ok := suites[rec.Gen.Suite]
+		if !ok {
+			fmt.Fprintf(os.Stderr, "unknown suite %q\n", rec.Gen.Suite)
+			os.Exit(2)
+		}
+		c.r = &rng{s: rec.Gen.Seed*0x9e3779b97f4a7c15 + 12345}
+		c.n, c.tier, c.only = rec.Gen.N, rec.Gen.Tier, rec.Gen.Index
+		c.gen = *rec.Gen
+		fn(c)
+		return
 	}
 	fn, ok := replayers[rec.Suite]
 	if !ok {
